@@ -32,6 +32,13 @@ def regex_family(nodes: list[str]) -> list[str]:
             out.append(re.escape(n[:-1]) + "[a-z_]")  # class + prefix
     for a, b in itertools.combinations(nodes, 2):
         out.append(f"({re.escape(a)}|{re.escape(b)})$")
+    # top-level (unparenthesised) alternations whose later alternative is a bare component occurring inside
+    # other names: under re.match every alternative is anchored at the start of the name
+    comps = sorted({n.split(".")[-1] for n in nodes if "." in n})
+    for n in nodes[1:3]:
+        for c in comps[:2]:
+            out.append(f"{re.escape(n)}$|{c}")
+            out.append(f"{c}|{re.escape(n)}")
     out.append(r".*\..*\.")  # depth >= 3
     out.append(r"[^.]+$")  # roots only
     out.append(r"nomatch_zz")  # matches nothing
@@ -65,7 +72,7 @@ def instances(tier: str) -> list[dict]:
         nodes = concrete(tree, naming)
         fam = regex_family(nodes)
         if tier == "quick":
-            fam = fam[:: 2] + fam[-4:]
+            fam = fam[:: 2] + [r for r in fam if "|" in r and "(" not in r][:4] + fam[-4:]
         others = [n for n in nodes if "." in n] if tier == "quick" else nodes
         for rx in fam:
             for other in others[: (2 if tier == "quick" else 3)]:
@@ -250,7 +257,7 @@ def run(tier: str, only: str | None = None) -> int:
         "trees": sorted({i["tree"] for i in items}),
         "namings": sorted({i["naming"] for i in items}),
         "path_cap_per_summary": CAPS[tier],
-        "regex_family": "anchored names, prefixes, last-char classes, two-name alternations, depth and root patterns, two never-matching patterns; on subject or object side; all 12 shapes",
+        "regex_family": "anchored names, prefixes, last-char classes, two-name alternations (parenthesised, and top-level with a bare component as an alternative), depth and root patterns, two never-matching patterns; on subject or object side; all 12 shapes",
         "partial_family": "name, *last, name*, *last*, *.last, never-matching, bare *",
         "batches": "2-3 subjects (named / sub modules of, related modules included) x all shapes; 2-3 objects x plain should / should_not",
     }
